@@ -8,7 +8,7 @@ STUB_CLOCK = ["clock: time()/gettimeofday()/clock()/times() answered by the simu
 CHECKS = {
     "C02": dict(
         level="exploration",
-        required_probes=['observer_after_set_bin', 'observer_after_set_view', 'reopen_compared', 'non_native_byte_order', 'permuted_segment_sequence', 'tof_by_view', 'out_of_range_request', 'error_reported_after_fault', 'exam_info_with_start_time_and_calibration_factor'],
+        required_probes=['observer_after_set_bin', 'observer_after_set_view', 'reopen_compared', 'non_native_byte_order', 'permuted_segment_sequence', 'tof_by_view', 'out_of_range_request', 'error_reported_after_fault', 'exam_info_with_start_time_and_calibration_factor', 'segment_of_other_size_offered'],
         parts=[dict(harness="chk_C02", variant="seq", src="checks/chk_C02.cpp",
                     runs=dict(quick=6000, thorough=300000), wall_cap=dict(quick=150, thorough=2400))],
         rule=("one case = one generated plan: geometry (detectors, rings, span, max ring difference, view mashing, tangential "
